@@ -1,4 +1,6 @@
 import VermouthModel.C13_Reader
+import VermouthModel.C13_Mapping
+import VermouthModel.C13_Backmap
 import Generated.C13Tables
 open Proto C13
 
@@ -10,6 +12,8 @@ def reprJ : JVal → String
   | .bool b => if b then "b1" else "b0"
   | .null => "n"
   | .other r => "o" ++ r
+  | .choice l => "c" ++ "|".intercalate l
+  | .notP a => "p" ++ a
 
 def encAttrs (a : Attrs) : String :=
   let sorted := a.mergeSort (fun x y => strLe x.1 y.1)
@@ -22,6 +26,8 @@ def jvalOf (t : Tok) : Option JVal := do
   | [Tok.int 2, Tok.int b] => pure (.bool (b != 0))
   | [Tok.int 3] => pure .null
   | [Tok.int 4, Tok.str s] => pure (.other s)
+  | [Tok.int 5, l] => do pure (.choice (← strs? l))
+  | [Tok.int 6, Tok.str s] => pure (.notP s)
   | _ => none
 
 def attrsOf (t : Tok) : Option Attrs := do
@@ -134,6 +140,8 @@ def handle (_ : Unit) (toks : List Tok) : Unit × String :=
         match mapRun mapParams ls with
         | some s => pure (encList (s.out.map encBody))
         | none => pure "error"
+    | Tok.str "mapping" :: args => C13.Mapping.handleOp args
+    | Tok.str "backmap" :: args => C13.Backmap.handleOp args
     | _ => none
   ((), r.getD "bad-op")
 
